@@ -192,14 +192,14 @@ def run_one(spec, hist):
     import builtins
     builtins.__dict__.pop('_', None)
     try:
-        signal.alarm(CASE_TIMEOUT)
+        signal.alarm(int(getattr(spec, 'case_timeout', 0) or CASE_TIMEOUT))
         try:
             res = spec.run_case(hist)
         finally:
             signal.alarm(0)
     except CaseTimeout:
         kind = 'timeout' if spec.timeout_is_violation else 'HARNESS:timeout'
-        res = {'atoms': [{'sig': kind, 'msg': 'case exceeded %ds' % CASE_TIMEOUT}],
+        res = {'atoms': [{'sig': kind, 'msg': 'case exceeded %ds' % int(getattr(spec, 'case_timeout', 0) or CASE_TIMEOUT)}],
                'outcome': 'timeout'}
     except BaseException as ex:   # harness bug or an escape the spec did not classify
         res = {'atoms': [{'sig': 'HARNESS:' + type(ex).__name__,
